@@ -403,7 +403,20 @@ Definition tx_same (glob_ok : bool) (t t' : ctx) : bool :=
   && (affdata_eqb (x_af t) (x_af t')
       || (glob_ok && is_xsplit (x_act t) && aff_is_default (x_af t) && aff_is_global (x_af t'))).
 
-(* the class on which the second-generation bytes differ from the first:
+Fixpoint forall2b {T} (f : T -> T -> bool) (a b : list T) : bool :=
+  match a, b with
+  | [], [] => true
+  | x :: a', y :: b' => f x y && forall2b f a' b'
+  | _, _ => false
+  end.
+
+(* the classes on which the second-generation bytes differ from the first:
+   a split of the default affiliate in a list that names no other affiliate
+   (it comes back as a split of all affiliates and the second write has an
+   affiliate column holding __global__), and *)
+Definition K_default_split (txs : list ctx) : bool :=
+  no_named_affiliate txs && existsb (fun t => is_xsplit (x_act t)) txs.
+(*
    a memo with surrounding white space (written as is, read trimmed) *)
 Definition K_memo_untrimmed (txs : list ctx) : bool :=
   existsb (fun t => negb (beqb (trim (x_memo t)) (x_memo t))) txs.
